@@ -171,6 +171,8 @@ struct Th {
     woken: bool,
     prio: i64,
     run_len: u32,
+    /// a stall the scenario asked for: (schedule points of this thread still to pass, ns)
+    armed_stall: Option<(u32, u64)>,
 }
 
 struct TraceEv {
@@ -841,6 +843,23 @@ impl Engine {
                 None => return false,
             }
         } else {
+            // a stall placed by the scenario at the n-th next schedule point of this thread
+            if let Some((left, d)) = inner.th[me].armed_stall {
+                if op != Op::After as u8 {
+                    if left == 0 {
+                        inner.th[me].armed_stall = None;
+                        inner.record_fault(F_STALL, d);
+                        if let Ok(mut l) = STALLS.lock() {
+                            l.push(StallRec { step: inner.step, vt: inner.now, dur: d, file: loc.file(), line: loc.line(), op: op_name(op) });
+                        }
+                        let th = &mut inner.th[me];
+                        th.st = St::Blocked(Why::Sleep);
+                        th.wake_at = inner.now + d;
+                        return true;
+                    }
+                    inner.th[me].armed_stall = Some((left - 1, d));
+                }
+            }
             if inner.stalls_left == 0 || inner.cfg.stall_ppm == 0 {
                 return false;
             }
@@ -982,6 +1001,7 @@ impl Hooks for Engine {
             woken: false,
             prio,
             run_len: 0,
+            armed_stall: None,
         });
         id
     }
@@ -1230,6 +1250,7 @@ pub fn init(cfg: Cfg) {
         woken: false,
         prio: rng.below(1 << 30) as i64 + (1 << 20),
         run_len: 0,
+            armed_stall: None,
     };
     let inner = Inner {
         th: vec![main],
@@ -1537,6 +1558,40 @@ pub fn finish_ok() -> ! {
 }
 
 /// move the hang horizon (virtual time after which the run is declared hung)
+/// Ask for a stall of the calling thread: at its `nth` next schedule point (0 = the very next
+/// one; the points after a write are not counted) it sleeps `ns` of virtual time before it
+/// performs the operation of that point. A fault like the random stalls (recorded, replayed by
+/// step number; ignored while replaying).
+pub fn stall_self_at(nth: u32, ns: u64) {
+    let me = tid();
+    let mut g = ENGINE.lock();
+    if let Some(i) = g.as_mut() {
+        if i.cfg.strategy != Strategy::Replay && me != usize::MAX {
+            i.th[me].armed_stall = Some((nth, ns));
+        }
+    }
+}
+
+/// drop a stall that was asked for and has not happened
+pub fn disarm_stall() {
+    let me = tid();
+    let mut g = ENGINE.lock();
+    if let Some(i) = g.as_mut() {
+        if me != usize::MAX {
+            i.th[me].armed_stall = None;
+        }
+    }
+}
+
+/// from now on look at the epoll fds at every scheduling decision (the scenario starts to use
+/// real sockets)
+pub fn set_io_always(on: bool) {
+    let mut g = ENGINE.lock();
+    if let Some(i) = g.as_mut() {
+        i.cfg.io_always = on;
+    }
+}
+
 pub fn set_vt_limit(t: u64) {
     let mut g = ENGINE.lock();
     if let Some(i) = g.as_mut() {
